@@ -340,6 +340,20 @@ impl Monitor for C03 {
         out.cover("optimizer_flags", format!("{}/{}", opt.name(), flags));
         out.cover("step_counts", steps.to_string());
         let mut o = opt.build();
+        // every fourth case: a second optimizer instance of the same kind (other hyper-parameters
+        // by the same generator) is updated on the same slots in between - instances share nothing
+        let mut decoy = if idx % 4 == 2 {
+            let mut d = crate::train::gen_optimizer(&mut rng, (idx % 5) as usize).build();
+            let st2 = state.clone();
+            if guard(|| d.validate(st2)).is_ok() {
+                out.count("cases_with_a_second_optimizer_instance_updated_in_between", 1);
+                Some(d)
+            } else {
+                None
+            }
+        } else {
+            None
+        };
         if let Err(m) = guard(|| o.validate(state)) {
             out.viol(&format!("opt:{}:validate-panic", opt.name()), format!("validate panicked: {}", short(&m, 160)), J::s(&desc));
             return out;
@@ -369,6 +383,14 @@ impl Monitor for C03 {
             let n = s.w0.len();
             let grads: Vec<f32> = (0..n).map(|i| gradient(&mut streams[si], s.fam, t, s.base[i])).collect();
             let mut gt = mk(&s.dims, &grads);
+            if let Some(d) = decoy.as_mut() {
+                if rng.bool() {
+                    let mut dw = mk(&s.dims, &(0..n).map(|_| rng.f32_in(-1.0, 1.0)).collect::<Vec<f32>>());
+                    let mut dg = mk(&s.dims, &(0..n).map(|_| rng.f32_in(-1.0, 1.0)).collect::<Vec<f32>>());
+                    let dstep = rng.range(1, 50) as i32;
+                    let _ = guard(|| d.update(s.layer, s.filter, s.bias, dstep, &mut dw, &mut dg));
+                }
+            }
             let r = guard(|| o.update(s.layer, s.filter, s.bias, stepnr, &mut live[si], &mut gt));
             if let Err(m) = r {
                 if !failed[si] {
